@@ -46,6 +46,20 @@ func genCross(t *rapid.T) Case {
 	return Case{Prog: p, Feat: patternFeats(f)}
 }
 
+// assigning forms on names bound in an enclosing scope, inside every block form (pattern assignCross),
+// on top of the scopes profile and of the union profile; a sub-check of its own for the same reason
+var assignProfile = prog.Profile{Scopes: true, Assign: true, HostChan: true, MaxDepth: 3, MaxStmts: 3}
+var assignUnionProfile = prog.Profile{Scopes: true, Control: true, Errors: true, Assign: true, HostChan: true, MaxDepth: 3, MaxStmts: 3}
+
+func genAssign(t *rapid.T) Case {
+	pr := assignProfile
+	if rapid.IntRange(0, 3).Draw(t, "union") == 0 {
+		pr = assignUnionProfile
+	}
+	p, f := prog.Generate(t, pr)
+	return Case{Prog: p, Feat: patternFeats(f)}
+}
+
 func genUnion(t *rapid.T) Case {
 	p, f := prog.Generate(t, unionProfile)
 	return Case{Prog: p, Feat: patternFeats(f)}
@@ -54,7 +68,7 @@ func genUnion(t *rapid.T) Case {
 func patternFeats(f map[string]int) map[string]int {
 	out := map[string]int{}
 	for k, n := range f {
-		if strings.HasPrefix(k, "cross_") || strings.HasPrefix(k, "binder_") || strings.HasPrefix(k, "closure_") || k == "self_name" || k == "scope_cross" {
+		if strings.HasPrefix(k, "cross_") || strings.HasPrefix(k, "binder_") || strings.HasPrefix(k, "closure_") || strings.HasPrefix(k, "assign_") || k == "self_name" || k == "scope_cross" {
 			out[k] = n
 		}
 	}
@@ -75,7 +89,7 @@ func oracle(c Case, o *h.Obs) *h.Fail {
 			o.Class(k)
 		}
 	}
-	for _, k := range []string{"shadow_define", "local_create", "assign_updates_outer", "read_after_scope_end", "closure_created", "undefined_name", "error_caught"} {
+	for _, k := range []string{"shadow_define", "local_create", "assign_updates_outer", "read_after_scope_end", "closure_created", "undefined_name", "error_caught", "go_function_wrote_through_address_of_name"} {
 		if f[k] > 0 {
 			o.Class(k)
 		}
@@ -84,7 +98,12 @@ func oracle(c Case, o *h.Obs) *h.Fail {
 		o.Class("pattern_" + k)
 	}
 	if !v.OK {
-		f := h.Failf("C04|"+v.Clause, "program:\n%s\n%s", v.Src, v.Detail)
+		clause := v.Clause
+		if c.Feat["assign_cross"] > 0 && (clause == "trace" || clause == "value" || clause == "bindings") {
+			// programs of the sub-check `assigns`: a signature of its own
+			clause = "assigned-name|" + clause
+		}
+		f := h.Failf("C04|"+clause, "program:\n%s\n%s", v.Src, v.Detail)
 		f.NoShrink = v.Clause == "no-termination"
 		return f
 	}
@@ -111,4 +130,6 @@ func TestC04(t *testing.T) {
 	h.Run(c, "exits", c.N(8000, 80000), genUnion, oracle)
 	c.Rule("patterns: the same oracle over programs that also contain the by-construction patterns: every binder form on a fresh name inside every block form (observed inside and after), a named function rebinding or recursing through its own name, closure factories called several times")
 	h.Run(c, "patterns", c.N(10000, 100000), genCross, oracle)
+	c.Rule("assigns: the same oracle over programs that contain the pattern assignCross: a name bound in the current scope (fresh or from the pool, by assignment or var) is given a new value by one of the assigning forms (x = e; x, y = e1, e2; x, y = [e1, e2]; x, y = m[k]; x = <-ch; x, y = <-ch; a Go function storing through &x) inside one of thirteen block forms - one level, two levels, two levels with a var of the name in between, or a closure called from inside a block - and is read inside, after every block and at the end; a second target is either bound outside too or created in the block")
+	h.Run(c, "assigns", c.N(3000, 30000), genAssign, oracle)
 }
